@@ -33,6 +33,31 @@ pub struct StorageSnapshot {
 }
 
 impl StorageSnapshot {
+    /// The same view with the not yet committed part of a write transaction on top: the
+    /// nodes it created (in creation order), the node label table that includes them and
+    /// its label changes, and the runs of its completed statements (newest first).
+    pub(crate) fn with_pending(
+        mut self,
+        created: &[(ExternalId, LabelId, InternalNodeId)],
+        node_labels: Arc<Vec<Vec<LabelId>>>,
+        runs: &[Arc<snapshot::L0Run>],
+    ) -> Self {
+        let mut i2e = Arc::unwrap_or_clone(self.i2e);
+        i2e.extend(created.iter().map(|(external_id, label_id, _)| I2eRecord {
+            external_id: *external_id,
+            label_id: *label_id,
+            flags: 0,
+        }));
+        self.i2e = Arc::new(i2e);
+        let mut tombstoned = Arc::unwrap_or_clone(self.tombstoned_nodes);
+        for run in runs {
+            tombstoned.extend(run.iter_tombstoned_nodes());
+        }
+        self.tombstoned_nodes = Arc::new(tombstoned);
+        self.inner = self.inner.with_pending(node_labels, runs);
+        self
+    }
+
     fn ensure_stats_cache_loaded(&self) {
         let mut cache = self.stats_cache.lock().unwrap();
         if cache.is_none() {
